@@ -74,6 +74,26 @@ def parse_template(path):
             item = re.sub(r"^pub(?:\([a-z]+\))?\s+", "", src[ms[0].start():ms[0].end()])
             (raw if cur is None else (_ for _ in ()).throw(Undecided("//@const inside //@fn"))).append("pub " + item)
             continue
+        if s.startswith("//@item "):
+            # //@item <file> <struct|enum> <Name> : the real item text, attributes dropped (R11)
+            toks = s.split()
+            src = open(os.path.join(SRC, toks[1])).read()
+            masked = X.mask(src)
+            ms = [m for m in re.finditer(r"(?:pub(?:\([a-z]+\))?\s+)?%s\s+%s\b[^{;]*[{;]" % (toks[2], re.escape(toks[3])), masked)
+                  if not X._in_test_mod(masked, m.start())]
+            if len(ms) != 1:
+                raise Undecided("lost anchor: %s %s in %s found %d times" % (toks[2], toks[3], toks[1], len(ms)))
+            m0 = ms[0]
+            end = m0.end()
+            if masked[end - 1] == "{":
+                end = X.match_brace(masked, end - 1) + 1
+            item = src[m0.start():end]
+            item = re.sub(r"pub\([a-z]+\)\s+", "pub ", item)
+            item = re.sub(r"(?m)^\s*///.*\n", "", item)
+            if cur is not None:
+                raise Undecided("//@item inside //@fn")
+            raw.append(item)
+            continue
         if s.startswith("//@fn "):
             if cur is not None:
                 raise Undecided("%s: nested //@fn" % path)
